@@ -400,3 +400,48 @@ def correspond(run, stream, cases, canon=lambda r: r, nontrivial=lambda c, r: Tr
     for c, r, m, v in res[:want_samples]:
         run.samples.append({"stream": stream, "case": describe(c), "impl": r, "model": m, "oracle": v})
     return res
+
+
+_UNI_POOL = None
+
+
+def unicode_pool():
+    """every non-ASCII character that some Unicode-aware operation relates to the ASCII alphabet of a version grammar: its lower / upper /
+    case-folded / NFKC / NFKD form is (or starts with) an ASCII character, it is a decimal digit of another script, or it is white space / a format character (BOM, zero-width
+    space and joiners, direction marks, line and paragraph separators) - the characters a `(?i)`, `\\d`, `\\s`, `trim` or a tolerant pre-processing
+    step lets in; computed from unicodedata, not listed by hand"""
+    global _UNI_POOL
+    if _UNI_POOL is None:
+        import unicodedata
+        out = []
+        for cp in range(0x80, 0x30000):
+            if 0xD800 <= cp <= 0xDFFF:
+                continue
+            c = chr(cp)
+            cat = unicodedata.category(c)
+            if cat in ("Cn", "Co"):
+                continue
+            forms = (c.lower(), c.upper(), c.casefold(), unicodedata.normalize("NFKC", c), unicodedata.normalize("NFKD", c))
+            if cat in ("Nd", "Zs", "Zl", "Zp", "Cf") or c.isspace() or any(f and f[0].isascii() for f in forms):
+                out.append(c)
+        _UNI_POOL = out
+    return _UNI_POOL
+
+
+def unicode_neighbours(bases, rng, per_char=3):
+    """for every character of unicode_pool(): put it in front of, behind, inside and in place of a character of a valid version"""
+    res = []
+    for c in unicode_pool():
+        for k in range(per_char):
+            b = bases[rng.randrange(len(bases))]
+            i = rng.randint(0, len(b))
+            mode = (k + rng.randint(0, 1)) % 4
+            if mode == 0:
+                res.append(c + b)
+            elif mode == 1:
+                res.append(b + c)
+            elif mode == 2 or i >= len(b):
+                res.append(b[:i] + c + b[i:])
+            else:
+                res.append(b[:i] + c + b[i + 1:])
+    return res
